@@ -13,6 +13,11 @@ class KDTransformChoice(KDStochasticTransform):
                 t.set_rng(rng)
         return super().set_rng(rng)
 
+    def _scale_strength(self, factor):
+        for t in self.transforms:
+            if isinstance(t, KDTransform):
+                t.scale_strength(factor)
+
     def __call__(self, x, ctx=None):
         # select which transform to apply
         idx = int(self.rng.random() * len(self.transforms))
